@@ -1,6 +1,7 @@
 /-
   C16 — property theorems (and non-vacuity examples) ONLY.  Helper lemmas: `Lemmas.lean`,
-  `Columns.lean`, `Ops.lean`, `Refine.lean`, `Steps.lean`, `ReadOnly.lean`, `RoSteps.lean`, `Lifetime.lean`, `Builtins.lean`, `Sim.lean`.
+  `Columns.lean`, `Ops.lean`, `Refine.lean`, `Steps.lean`, `ReadOnly.lean`, `RoSteps.lean`, `Lifetime.lean`, `Builtins.lean`, `Sim.lean`,
+  `Quirks.lean`, `Frame.lean` (extension round).
 
   Property text: "For every history of assignments, temporary assignments, function calls and
   returns, local declarations, exports, read-only marks and unsets, looking up a variable returns
@@ -16,6 +17,7 @@
 -/
 import YashModel.Variable.Prefix
 import YashModel.Variable.Observe
+import YashModel.Variable.Frame
 namespace YashModel.Variable
 
 /-! ### the normal form is an invariant -/
@@ -346,12 +348,12 @@ theorem function_global_assignment_persists (s : VariableSet) (h : Norm s) (as :
 
 /-! ### end to end: what the driver prints for the model is what it prints for the Spec -/
 
-/-- every component of the observation (results, `get`, `get_scoped`, `get_scalar`, `iter` per
-    scope, environment, positional parameters) is computed identically from the Rust model and from
-    the stack of maps -/
-theorem observe_refines (s : VariableSet) (h : Norm s) (r : Res) (names : List Name) :
-    observeM s r names = observeS (abs s) r names := by
-  unfold observeM observeS
+/-- every component of the observation (results, `get`, `get_scoped`, `get_scalar`, the expansion of
+    the visible variable, `iter` per scope, environment, positional parameters) is computed
+    identically from the Rust model and from the stack of maps -/
+theorem observeT_refines (s : VariableSet) (h : Norm s) (rs : String) (names : List Name) :
+    observeMT s rs names = observeST (abs s) rs names := by
+  unfold observeMT observeST
   have e1 : s.getScalar = (abs s).getScalar := funext fun n => getScalar_refines s h n
   have e2 : s.get = lookup (abs s) := funext fun n => get_abs h n
   have e3 : s.getScoped = (abs s).getScoped := funext fun n => funext fun sc => getScoped_abs h n sc
@@ -359,33 +361,64 @@ theorem observe_refines (s : VariableSet) (h : Norm s) (r : Res) (names : List N
     funext fun sc => iter_refines s h sc names
   rw [e1, e2, e3, e4, env_refines s h, positionalParams_abs]
 
-/-- ★ end to end, API leg: for every operation history of the case language (any length, any
-    names, `extend_env` included) the driver's model column and Spec column are the same text — so
-    `impl = model` on a case is `impl = stack of maps` on that case -/
-theorem history_trace_refines (names : List Name) (items : List (Op ⊕ (Name × String))) :
+theorem observe_refines (s : VariableSet) (h : Norm s) (r : Res) (names : List Name) :
+    observeM s r names = observeS (abs s) r names :=
+  observeT_refines s h (showRes r) names
+
+/-- `VariableSet::init`: same abstract state as the same operations on the stack of maps, normal
+    form kept -/
+theorem init_refines (s : VariableSet) (h : Norm s) : abs s.init = (abs s).init ∧ Norm s.init :=
+  run_abs_from h theInitOps
+
+/-- the observations made while the guards still alive at the end of a case are dropped -/
+theorem unwind_trace_refines (names : List Name) (k : Nat) (s : VariableSet) (h : Norm s) :
+    (unwindGo names k s (abs s)).1 = (unwindGo names k s (abs s)).2 := by
+  induction k generalizing s with
+  | zero => rfl
+  | succ k ih =>
+    have h1 := step_abs h .pop
+    simp only [unwindGo]
+    rw [← h1.1, ← observeT_refines _ h1.2.2, ih _ h1.2.2]
+
+/-- ★ end to end, API leg: for every history of the case language (any length, any names;
+    operations, `extend_env`, `init`, `expand` at any location, and the final unwinding of the
+    contexts) the driver's model column and Spec column are the same text — so `impl = model` on a
+    case is `impl = stack of maps` on that case -/
+theorem history_trace_refines (names : List Name) (items : List Item) :
     (historyGo names VariableSet.new SSet.new items [] []).1 =
     (historyGo names VariableSet.new SSet.new items [] []).2 := by
   have h0 : abs VariableSet.new = SSet.new := by simp [abs, VariableSet.new, absRev, SSet.new, cellAt]
-  have : ∀ (items : List (Op ⊕ (Name × String))) (s : VariableSet) (acc : List String), Norm s →
+  have : ∀ (items : List Item) (s : VariableSet) (acc : List String), Norm s →
       (historyGo names s (abs s) items acc acc).1 = (historyGo names s (abs s) items acc acc).2 := by
     intro items
     induction items with
-    | nil => intro s acc _; rfl
+    | nil =>
+      intro s acc hs
+      simp only [historyGo]
+      rw [unwind_trace_refines names _ s hs]
     | cons it rest ih =>
       intro s acc hs
       cases it with
-      | inl op =>
+      | op op =>
         have h1 := step_abs hs op
         simp only [historyGo]
         rw [← h1.1, ← h1.2.1, ← observe_refines _ h1.2.2]
         exact ih _ _ h1.2.2
-      | inr p =>
-        obtain ⟨n, v⟩ := p
+      | ee n v =>
         have h1 := extendEnv_refines [(n, v)] s hs
         simp only [VariableSet.extendEnv, SSet.extendEnv] at h1
         simp only [historyGo]
         rw [← h1.1, ← observe_refines _ h1.2]
         exact ih _ _ h1.2
+      | init =>
+        have h1 := init_refines s hs
+        simp only [historyGo]
+        rw [← h1.1, ← observe_refines _ h1.2]
+        exact ih _ _ h1.2
+      | xp n l =>
+        simp only [historyGo]
+        rw [← observeT_refines _ hs, get_abs hs n]
+        exact ih _ _ hs
   rw [← h0]
   exact this items _ _ norm_init
 
@@ -639,7 +672,7 @@ theorem prefix_left_to_right {σ : Type} (I : Iface σ) (sc : Scope) (ex : Bool)
 theorem valueOfVar_scalar (u : Variable) (x : String) (h : u.value = some (.scalar x)) :
     valueOfVar (some u) = .scalar x := by
   cases u with
-  | mk value la exp ro => simp only at h; subst h; rfl
+  | mk value la exp ro qk => simp only at h; subst h; rfl
 
 /-- ★ `prefix_sees_earlier_assignment`: in `a=X b=$a cmd` the lookup of `$a` is answered by the
     `a=X` just assigned — `b` ends up with the value `X` — both for a command-less command or special
@@ -707,6 +740,271 @@ example : ((runAssigns ifaceM .volatile true (lt0.step (.push .volatile)).1
       [("x", .lit (.scalar "2")), ("y", .ref "x")]).1.env ["x", "y"]) = [("x", "2"), ("y", "2")] := by decide
 example : ((runAssigns ifaceM .global false lt0 [("x", .lit (.scalar "2")), ("y", .ref "x")]).1.get "y")
     = some { value := some (.scalar "2") } := by decide
+
+
+/-! ### extension round: tables of the code, `init`, the `LINENO` quirk, the frame rule -/
+
+open YashModel.Generated in
+/-- the operations `VariableSet.init` runs are exactly those the tables extracted from `fn init`
+    describe (scope of the loop, name / scope / quirk of the `set_quirk` call) -/
+theorem init_tables_match : initOpsOfTables = some theInitOps := by rfl
+
+open YashModel.Generated in
+/-- the `VARIABLES` table of `fn init` (re-extracted from /repo on every run) is the list of
+    initial values POSIX prescribes, and the variable that gets the line-number quirk is `LINENO` -/
+theorem init_table_is_posix :
+    VariableTables.initVariables = posixInitialValues ∧
+    VariableTables.initQuirkName = posixLineNumberVariable := by decide
+
+open YashModel.Generated in
+theorem initNames_nodup :
+    (VariableTables.initVariables.map (·.1) ++ [VariableTables.initQuirkName]).Nodup := by decide
+
+/-- ★ `init_spec`: after `VariableSet::init` on any normalised set (1) every variable POSIX gives an
+    initial value has it, unless it was read-only ("ignores any assignment errors"); (2) the stack of
+    every other name, and the contexts, are untouched; (3) started with only the base context (as the
+    shell does), `LINENO` is a single instance in the base context carrying the line-number quirk -/
+theorem init_spec (s : VariableSet) (h : Norm s) :
+    (∀ n v, (n, v) ∈ posixInitialValues →
+      ∃ u, s.init.get n = some u ∧ (u.isReadOnly = false → u.value = some (.scalar v))) ∧
+    (∀ n, n ∉ initNames → s.init.all n = s.all n) ∧
+    s.init.contexts = s.contexts ∧
+    (s.contexts.length = 1 →
+      ∃ u, s.init.all posixLineNumberVariable = [⟨u, 0⟩] ∧ u.quirk = some .lineNumber) := by
+  refine ⟨?_, ?_, ?_, ?_⟩
+  · intro n v hin
+    rw [← init_table_is_posix.1] at hin
+    exact initOps_values _ _ initNames_nodup s h n v hin
+  · intro n hn
+    exact (initOps_frame _ _ s n hn).1
+  · exact initOps_contexts _ _ s
+  · intro h1
+    rw [← init_table_is_posix.2]
+    exact initOps_lineno _ _ s h h1
+
+/-- ★ `lineno_expands_to_line`: start the shell's variable set (`init` on a set with only the base
+    context), then run *any* history that does not name `LINENO` — other variables in any scope,
+    function calls, temporary assignments, `set --`: expanding `$LINENO` at a location yields the
+    decimal line number of that location -/
+theorem lineno_expands_to_line (s : VariableSet) (h : Norm s) (h1 : s.contexts.length = 1) (ops : List Op)
+    (hops : ∀ op ∈ ops, op.name? ≠ some posixLineNumberVariable) (loc : Loc) :
+    ((s.init.run ops).get posixLineNumberVariable).map (·.expand loc) =
+      some (.scalar (toString loc.line)) := by
+  have h0 : LinenoOK s.init posixLineNumberVariable := by
+    have := initOps_lineno YashModel.Generated.VariableTables.initVariables
+      YashModel.Generated.VariableTables.initQuirkName s h h1
+    rw [init_table_is_posix.2] at this
+    exact this
+  obtain ⟨u, hu, hq⟩ := linenoOK_run ops _ _ h0 hops
+  simp [VariableSet.get, hu, Variable.expand, hq]
+
+/-- ★ which line that is: for a variable with the line-number quirk, expanded at the position that
+    follows the text `pre` in a code whose first line has number `start` — directly or through any
+    chain of alias substitutions — the result is `start` plus the number of newlines in `pre`,
+    whatever value the variable holds -/
+theorem expand_line_spec (v : Variable) (hq : v.quirk = some .lineNumber) (start : Nat) (pre post : List Char)
+    (segs : List (Nat × String × Nat)) :
+    v.expand ((Loc.plain start (String.ofList (pre ++ post)) pre.length).wrap segs) =
+      .scalar (toString (start + (pre.filter (· == '\n')).length)) := by
+  simp only [Variable.expand, hq, line_wrap, Loc.line, lineNumber_append]
+
+/-- … and a variable without a quirk expands to its value (unset → `Unset`) -/
+theorem expand_plain (v : Variable) (hq : v.quirk = none) (loc : Loc) :
+    v.expand loc = Expansion.ofValue v.value := by
+  simp [Variable.expand, hq]
+
+/-- non-vacuity and the interplay of the quirk with scoping, as the code has it: after `init`
+    `$LINENO` at (line 3, after two newlines) is `5`; `LINENO=7` keeps the quirk (the `TODO Apply quirk`
+    of `assign_impl`): the expansion is still the line number while an exported `LINENO` passes `7`
+    to programs; a temporary assignment clones the quirk into the volatile context; `typeset LINENO`
+    in a function declares a fresh local without quirk and without value; `unset LINENO` removes it -/
+example : ((VariableSet.new.init.get "LINENO").map (·.expand obsLoc)) = some (.scalar "5") := by decide
+example : (VariableSet.new.init.get "IFS") = some { value := some (.scalar " \t\n") } := by decide
+example : (((VariableSet.new.init.run [.assign "LINENO" .global (.scalar "7") none,
+      .export "LINENO" .global true]).get "LINENO").map (·.expand obsLoc)) = some (.scalar "5") := by decide
+example : ((VariableSet.new.init.run [.assign "LINENO" .global (.scalar "7") none,
+      .export "LINENO" .global true]).env ["LINENO"]) = [("LINENO", "7")] := by decide
+example : (((VariableSet.new.init.run [.push .volatile, .assign "LINENO" .volatile (.scalar "7") none]).get
+      "LINENO").map (·.quirk)) = some (some .lineNumber) := by decide
+example : (((VariableSet.new.init.run (enterFunction [] [] ++ [.getOrNew "LINENO" .loc])).get
+      "LINENO").map (·.expand obsLoc)) = some .unset := by decide
+example : ((VariableSet.new.init.run [.unset "LINENO" .global]).get "LINENO") = none := by decide
+example : ∀ op ∈ [Op.assign "x" .global (.scalar "1") none, .push .volatile, .pop], op.name? ≠ some "LINENO" := by
+  decide
+
+/-- ★ audit of the totalised definitions: in a normalised set none of the defaults that stand in for
+    a Rust panic is ever taken — `index_of_topmost_regular_context` finds a regular context (the
+    `.expect`), so do `positional_params`; every context index stored in a stack is in range (the
+    indexing `self.contexts[var.context_index]` of `get_or_new_impl`); and the variable `get_or_new`
+    hands out exists (`stack.last_mut().unwrap()`), so `assignRes`'s default variable is never used -/
+theorem defaults_unreachable (s : VariableSet) (h : Norm s) :
+    (rposition Context.isRegular s.contexts).isSome = true ∧
+    (∃ ps, (s.contexts.reverse.findSome? fun c => match c with
+      | .regular ps => some ps
+      | .volatile => none) = some ps) ∧
+    (∀ n v, v ∈ s.all n → (s.contexts[v.ctx]?).isSome = true) ∧
+    (∀ n sc s1, s.getOrNew n sc = some s1 → (s1.get n).isSome = true) := by
+  obtain ⟨ps, t, hc⟩ := h.base
+  refine ⟨?_, ?_, ?_, ?_⟩
+  · rw [hc]; exact rposition_isSome_of_head _ _ _ rfl
+  · have : ∃ ps, ((abs s).findSome? fun c => match c.kind with
+        | .regular ps => some ps
+        | .volatile => none) = some ps := by
+      obtain ⟨c, hl, hr⟩ := baseReg_abs h
+      have hmem : c ∈ abs s := List.mem_of_getLast? hl
+      cases hf : (abs s).findSome? fun c => match c.kind with
+        | .regular ps => some ps
+        | .volatile => none with
+      | some ps => exact ⟨ps, rfl⟩
+      | none =>
+        have := List.findSome?_eq_none_iff.mp hf c hmem
+        cases hk : c.kind with
+        | regular qs => simp [hk] at this
+        | volatile => simp [hk, Context.isRegular] at hr
+    obtain ⟨qs, hq⟩ := this
+    refine ⟨qs, ?_⟩
+    rw [← hq]
+    have hk := abs_kinds s
+    rw [← hk, List.findSome?_map]
+    rfl
+  · intro n v hv
+    have := h.bounded n v hv
+    simp [this]
+  · intro n sc s1 hg
+    exact getOrNew_get_isSome hg
+
+theorem tempOps_flatMap (as : List (Name × Value)) :
+    as.flatMap (fun p => assignOps .volatile true p.1 p.2) = tempOps as := by
+  induction as with
+  | nil => rfl
+  | cons p as ih => obtain ⟨n, v⟩ := p; simp_all [tempOps, assignOps, List.flatMap_cons]
+
+theorem globalOps_flatMap (as : List (Name × Value)) :
+    as.flatMap (fun p => assignOps .global false p.1 p.2) = globalOps as := by
+  induction as with
+  | nil => rfl
+  | cons p as ih => obtain ⟨n, v⟩ := p; simp_all [globalOps, assignOps, List.flatMap_cons]
+
+/-- ★ `exec_tables_match`: the command table re-extracted on every run from yash-semantics
+    (`perform_assignments`: `export → Volatile`, else `Global`; `execute_builtin`: special → no
+    context, `export = false`, any other type → volatile context, `export = true`;
+    `execute_function` / `execute_external_utility`: volatile context, `true`;
+    `execute_absent_target`: no context, `false`) yields exactly the compilation of `Exec.lean`
+    over which the lifetime theorems are stated -/
+theorem exec_tables_match (as : List (Name × Value)) (ps : List String) (body : List Op) :
+    (∀ k ∈ ["execute_builtin_special", "execute_absent_target"], ∃ pre post,
+      prefixOfKind k as = some pre ∧ popsOfKind k = some post ∧ pre ++ body ++ post = specialCmd as body) ∧
+    (∀ k ∈ ["execute_builtin_other", "execute_external_utility"], ∃ pre post,
+      prefixOfKind k as = some pre ∧ popsOfKind k = some post ∧ pre ++ body ++ post = regularCmd as body) ∧
+    (∃ pre post, prefixOfKind "execute_function" as = some pre ∧ popsOfKind "execute_function" = some post ∧
+      pre ++ [Op.push (.regular ps)] ++ body ++ [Op.pop] ++ post = functionCmd as ps body) := by
+  have hs : ∀ k ∈ ["execute_builtin_special", "execute_absent_target"],
+      prefixOfKind k as = some ([] ++ as.flatMap (fun p => assignOps .global false p.1 p.2)) ∧
+      popsOfKind k = some [] := by
+    intro k hk
+    simp only [List.mem_cons, List.not_mem_nil, or_false] at hk
+    rcases hk with rfl | rfl <;> exact ⟨rfl, rfl⟩
+  have hr : ∀ k ∈ ["execute_builtin_other", "execute_external_utility", "execute_function"],
+      prefixOfKind k as = some ([Op.push .volatile] ++ as.flatMap (fun p => assignOps .volatile true p.1 p.2)) ∧
+      popsOfKind k = some [Op.pop] := by
+    intro k hk
+    simp only [List.mem_cons, List.not_mem_nil, or_false] at hk
+    rcases hk with rfl | rfl | rfl <;> exact ⟨rfl, rfl⟩
+  refine ⟨?_, ?_, ?_⟩
+  · intro k hk
+    obtain ⟨h1, h2⟩ := hs k hk
+    exact ⟨_, _, h1, h2, by simp [globalOps_flatMap, specialCmd]⟩
+  · intro k hk
+    obtain ⟨h1, h2⟩ := hr k (by
+      simp only [List.mem_cons, List.not_mem_nil, or_false] at hk ⊢
+      rcases hk with rfl | rfl <;> simp)
+    exact ⟨_, _, h1, h2, by simp [tempOps_flatMap, regularCmd]⟩
+  · obtain ⟨h1, h2⟩ := hr "execute_function" (by simp)
+    exact ⟨_, _, h1, h2, by simp [tempOps_flatMap, functionCmd]⟩
+
+/-- ★ `function_call_frame` (closes "bodies are classified syntactically"): a function call with
+    *any* body — accesses in every scope mixed at will, nested commands and function calls (any
+    pushes, as long as every pushed context is popped again, which the RAII guards guarantee),
+    `set --`, refused operations — and any temporary assignments and arguments, from any normalised
+    set.  For every name the body never accesses at `Global` scope (a semantic condition on the
+    body, not a syntactic class of bodies): after the call the variable is what it was — the visible
+    one, the one each scope sees, its environment entry, and every hidden instance (whatever is
+    visible after returning from any number of enclosing contexts); the contexts and all positional
+    parameters are what they were.  Temporaries and locals of such names vanish at return. -/
+theorem function_call_frame (s : VariableSet) (h : Norm s) (as : List (Name × Value)) (ps : List String)
+    (body : List Op) (hbal : balanced 0 body = true) (N : Name → Prop)
+    (hN : ∀ op ∈ body, ∀ m, op.globalName? = some m → ¬ N m) :
+    (∀ n, N n → (s.run (functionCmd as ps body)).get n = s.get n ∧
+      (∀ sc, (s.run (functionCmd as ps body)).getScoped n sc = s.getScoped n sc) ∧
+      (s.run (functionCmd as ps body)).env [n] = s.env [n] ∧
+      ∀ k, ((s.run (functionCmd as ps body)).run (List.replicate k Op.pop)).get n =
+        (s.run (List.replicate k Op.pop)).get n) ∧
+    (s.run (functionCmd as ps body)).contexts = s.contexts ∧
+    (s.run (functionCmd as ps body)).positionalParams = s.positionalParams := by
+  obtain ⟨ha, hN'⟩ := run_abs_from h (functionCmd as ps body)
+  have hA : Agree N (abs s) (abs (s.run (functionCmd as ps body))) := by
+    rw [ha]; exact spec_function_frame (abs s) (abs_ne_nil h) as ps body N hbal hN
+  have hk := agree_kinds hA
+  refine ⟨fun n hn => ⟨?_, ?_, ?_, ?_⟩, ?_, ?_⟩
+  · rw [get_abs hN', get_abs h]; exact agree_lookup hA n hn
+  · intro sc
+    rw [getScoped_abs hN', getScoped_abs h]
+    unfold SSet.getScoped
+    rw [scopeDepth_kinds hk sc]
+    exact agree_lookup (agree_take hA _) n hn
+  · rw [env_refines _ hN', env_refines _ h]
+    simp only [SSet.env, List.filterMap_cons, List.filterMap_nil]
+    rw [agree_lookup hA n hn]
+  · intro k
+    obtain ⟨ha1, hN1⟩ := run_abs_from hN' (List.replicate k Op.pop)
+    obtain ⟨ha2, hN2⟩ := run_abs_from h (List.replicate k Op.pop)
+    rw [get_abs hN1, get_abs hN2, ha1, ha2]
+    exact agree_lookup (agree_run_pops hA k) n hn
+  · have h1 := abs_kinds (s.run (functionCmd as ps body))
+    have h2 := abs_kinds s
+    rw [hk, h2] at h1
+    have := congrArg List.reverse h1
+    simpa using this.symm
+  · rw [positionalParams_abs, positionalParams_abs s]; exact positionalParams_kinds hk
+
+
+/-- ★ `getOrNew_spec`: the Spec's `get_or_new` walk (`lower`), declaratively, for `Global` and `Local`:
+    (1) the variable handed out is exactly the one that was visible within the scope — wherever it
+    was, a volatile context included — or a fresh default one if there was none; (2) no other name is
+    touched in any context and no context changes kind (so positional parameters stay); with
+    `getOrNew_refines` the same holds for the Rust structure's `get_or_new_impl` loop -/
+theorem getOrNew_spec (X : SSet) (hB : BaseReg X) (n : Name) :
+    lookup (lower n true X none) n = some ((lookup X n).getD {}) ∧
+    lookup (lower n false X none) n = some ((X.getScoped n .loc).getD {}) ∧
+    (∀ tb, Agree (· ≠ n) X (lower n tb X none)) := by
+  have hR : hasReg X = true := by
+    obtain ⟨c, hc, hr⟩ := hB
+    simp only [hasReg, List.any_eq_true]
+    exact ⟨c, List.mem_of_getLast? hc, hr⟩
+  exact ⟨lookup_lower_global n X hB none, lookup_lower_local n X hR none, fun tb => lower_agree n tb X none⟩
+
+/-- non-vacuity: a temporary `x=T` above a function's regular context above a global `x=1`:
+    `Global` hands out the temporary (carried down), `Local` a fresh local -/
+example : lookup (lower "x" true (SSet.run SSet.new
+      (Op.assign "x" .global (.scalar "1") none :: enterFunction [("x", .scalar "T")] [])) none) "x"
+    = some { value := some (.scalar "T"), exported := true } := by decide
+example : lookup (lower "x" false (SSet.run SSet.new
+      (Op.assign "x" .global (.scalar "1") none :: enterFunction [("x", .scalar "T")] [])) none) "x"
+    = some {} := by decide
+
+/-- non-vacuity: `x=T f a` with `f() { typeset y=5; z=9; x=3 cmd; set -- b; unset -v y; }` — the body
+    mixes Local, Global and Volatile accesses and a nested command; `x` and `y` are never accessed at
+    Global scope, `z` is -/
+def mixedBody : List Op :=
+  [.assign "y" .loc (.scalar "5") none, .assign "z" .global (.scalar "9") none,
+   .push .volatile, .assign "x" .volatile (.scalar "3") none, .export "x" .volatile true, .pop,
+   .setParams ["b"], .unset "y" .loc]
+
+example : balanced 0 mixedBody = true := by decide
+example : ∀ op ∈ mixedBody, ∀ m, op.globalName? = some m → ¬ (fun n => n = "x" ∨ n = "y") m := by decide
+example : (lt0.run (functionCmd [("x", .scalar "T")] ["a"] mixedBody)).get "x" = lt0.get "x" := by decide
+example : ((lt0.run (functionCmd [("x", .scalar "T")] ["a"] mixedBody)).get "z").map (·.value)
+    = some (some (.scalar "9")) := by decide
 
 /-! ### non-vacuity: a set with a hidden global, a local and a temporary variable -/
 
